@@ -1,4 +1,5 @@
 import BV.Lemmas.StreamFrame
+import BV.Lemmas.StreamSched3
 /-
 C05 — Output bytes depend on input, settings and call points only, not on buffering.
 
@@ -11,10 +12,17 @@ no allocator and no profile in it); input-chunking independence at quality ≥ 2
 requests are issued and is exercised differentially.  Those parts are validated by the harness
 (pairs of histories compared byte for byte) and labelled as such in the registration.
 
-Full statement (not proved as one theorem): for a request driven to completion under any schedule
-of output capacities and `take_output` calls, the concatenation of the delivered bytes and the
-final state do not depend on the schedule.  Proved: every ingredient of the induction over
-schedules — `out_slicing_irrelevant_partial`.
+Full statement, PROVED for PROCESS / FLUSH / FINISH requests (`out_slicing_irrelevant`,
+`out_slicing_irrelevant_seq`): for a request — or a sequence of requests — driven to completion under
+any schedule of output capacities and `take_output` calls, the bytes produced and the final state
+(everything but the output cursor, the pending bytes' location, `total_out_` and the size of
+`storage_`) do not depend on the schedule.  Proof: a simulation.  `ustep` (Lemmas/StreamSched) is
+the machine on abstract configurations (core state, all bytes produced, input left) — a function in
+which no capacity occurs; every atomic step of the real machine (Lemmas/StreamLts) is a stutter
+(bytes move to the caller) or exactly `ustep`; so every run walks along the one trajectory of
+`ustep`, and two complete runs end at the same point.  EMIT_METADATA requests are not in this
+theorem: for them C04 proves the conservation law `metadata_verbatim_*` (delivered ++ owed is
+invariant under every slicing).  The earlier per-step ingredients are kept below.
 -/
 namespace BV.Props.C05
 open BV.Stream BV.Bits
@@ -120,10 +128,100 @@ theorem out_slicing_irrelevant_partial {d : Bytes} {s s' : St} {io io' : Io} {b 
   rw [St.frame_eq_iff] at f
   exact ⟨emitted_push hst h, a1, a2, f.2.1, f.2.2.2.1, f.1, a9, a10⟩
 
+/-! ### the schedule induction -/
+
+/-- **every run refines the abstract machine**: a request `(op, chunk)` driven from a call boundary
+under ANY schedule (capacities 0, 1, …; `take_output` of any size at any point) stands on the
+trajectory of the capacity-free abstract machine `ustep` from its start: on its flush-free part, or
+— flag `true` — exactly one step past it, that step being the one that completed the flush. -/
+theorem schedule_refines_abstract {o : Oracle} {fuel op : Nat} {sched : List SchedStep} {s s' : St}
+    {chunk rem' del del' : Bytes} {d' : Bool} (hop2 : op ≤ 2) (hB : Bnd op s chunk)
+    (h : driveReq o fuel op sched s chunk del false = some (s', rem', del', d')) :
+    RPath o op (absR s chunk del) (absR s' rem' del') d' ∧ Bnd op s' rem' :=
+  let r := drive_rpath (o := o) (fuel := fuel) hop2 (absR s chunk del) sched s chunk del false s' rem' del' d' hB ⟨0, .nil _⟩
+    (fun hh => by cases hh) h
+  ⟨r.1, r.2.1⟩
+
+/-- **out_slicing_irrelevant** (full strength, one request): two runs of the same request
+`(op, chunk)`, `op` ∈ PROCESS / FLUSH / FINISH, from call boundaries that agree abstractly (same core
+state, same bytes produced so far), under two arbitrary schedules and fuels, each run complete
+(`Final`: its flush has just completed, or the abstract machine has nothing left to do — e.g. its
+last call returned with nothing pending, `complete_when_nothing_pending`) END IN THE SAME ABSTRACT
+CONFIGURATION: equal core states, equal bytes produced (delivered ++ pending), equal input left. -/
+theorem out_slicing_irrelevant {o : Oracle} {fuel1 fuel2 op : Nat} {sched1 sched2 : List SchedStep}
+    {s1 s2 s1' s2' : St} {chunk del1 del2 rem1 rem2 del1' del2' : Bytes} {d1 d2 : Bool}
+    (hop2 : op ≤ 2) (hB1 : Bnd op s1 chunk) (hB2 : Bnd op s2 chunk)
+    (hcore : core s1 = core s2) (hout : del1 ++ s1.pending = del2 ++ s2.pending)
+    (h1 : driveReq o fuel1 op sched1 s1 chunk del1 false = some (s1', rem1, del1', d1))
+    (h2 : driveReq o fuel2 op sched2 s2 chunk del2 false = some (s2', rem2, del2', d2))
+    (f1 : d1 = true ∨ ustep o op (absR s1' rem1 del1') = none)
+    (f2 : d2 = true ∨ ustep o op (absR s2' rem2 del2') = none) :
+    core s1' = core s2' ∧ del1' ++ s1'.pending = del2' ++ s2'.pending ∧ rem1 = rem2 := by
+  have ha : absR s1 chunk del1 = absR s2 chunk del2 := by
+    simp only [absR, hcore, hout]
+  obtain ⟨r1, _⟩ := schedule_refines_abstract hop2 hB1 h1
+  obtain ⟨r2, _⟩ := schedule_refines_abstract hop2 hB2 h2
+  rw [ha] at r1
+  have := rpath_final_eq r1 r2 f1 f2
+  simp only [absR, Abs.mk.injEq] at this
+  exact ⟨this.1, this.2.1, this.2.2.1⟩
+
+/-- a checkable completion criterion: a call that returns with nothing pending has completed its request -/
+theorem complete_when_nothing_pending {o : Oracle} {fuel op cap : Nat} {rem : Bytes} {s s' : St} {io' : Io}
+    (hop2 : op ≤ 2) (hB : Bnd op s rem)
+    (h : compressStream o fuel s op rem cap = .ok (s', io', true)) (hp : s'.pending = []) (d : Bytes) :
+    callDone op s' = true ∨ ustep o op (absR s' io'.input d) = none := call_final hop2 hB h hp d
+
+/-- a sequence of requests, each driven to completion under its own schedule, the caller keeping the
+contract between requests (no input outside PROCESSING, no 64-bit wrap of the position) -/
+inductive Driven (o : Oracle) : List (Nat × Bytes) → St → Bytes → St → Bytes → Prop
+  | nil (s : St) (del : Bytes) : Driven o [] s del s del
+  | cons {op fuel : Nat} {chunk : Bytes} {sched : List SchedStep} {rest : List (Nat × Bytes)}
+      {s s1 s' : St} {del rem1 del1 del' : Bytes} {d1 : Bool} :
+      op ≤ 2 → Bnd op s chunk →
+      driveReq o fuel op sched s chunk del false = some (s1, rem1, del1, d1) →
+      (d1 = true ∨ ustep o op (absR s1 rem1 del1) = none) →
+      Driven o rest s1 del1 s' del' → Driven o ((op, chunk) :: rest) s del s' del'
+
+/-- **out_slicing_irrelevant** (full strength, request sequences): two complete drivings of the same
+sequence of `(op, chunk)` requests — different capacity schedules, different `take_output`
+interleavings, different fuels — from abstractly equal starts deliver the same bytes
+(delivered ++ still pending) and end in the same abstract state -/
+theorem out_slicing_irrelevant_seq {o : Oracle} (reqs : List (Nat × Bytes)) :
+    ∀ {s1 s2 s1' s2' : St} {del1 del2 del1' del2' : Bytes},
+      Driven o reqs s1 del1 s1' del1' → Driven o reqs s2 del2 s2' del2' →
+      core s1 = core s2 → del1 ++ s1.pending = del2 ++ s2.pending →
+      core s1' = core s2' ∧ del1' ++ s1'.pending = del2' ++ s2'.pending := by
+  induction reqs with
+  | nil =>
+    intro s1 s2 s1' s2' del1 del2 del1' del2' h1 h2 hc ho
+    cases h1; cases h2
+    exact ⟨hc, ho⟩
+  | cons r rest ih =>
+    intro s1 s2 s1' s2' del1 del2 del1' del2' h1 h2 hc ho
+    cases h1 with
+    | cons hop1 hB1 hd1 hf1 hr1 =>
+      cases h2 with
+      | cons hop2 hB2 hd2 hf2 hr2 =>
+        obtain ⟨e1, e2, _⟩ := out_slicing_irrelevant hop1 hB1 hB2 hc ho hd1 hd2 hf1 hf2
+        exact ih hr1 hr2 e1 e2
+
 /-! ### non-vacuity -/
 
 example : (fastEncode {} {} { bits := [true, false, true] } { site := 2, lo := 0, hi := 0, isLast := false, forceFlush := false } 0 true false false).2.out
     = (fastEncode {} {} { bits := [true, false, true] } { site := 2, lo := 0, hi := 0, isLast := false, forceFlush := false } 0 false false false).1.pending := by
   decide
+
+/-- two concrete schedules of one FINISH request (ample room vs one byte at a time with
+`take_output` in between) both run, complete, and — as the theorem says — agree -/
+def exOracle : Oracle := fun _ _ => { result := true, emit := true, bits := List.replicate 20 true }
+def exStart : St := (setParameter St.new 1 5).1
+example : Bnd 2 exStart [1, 2, 3] := bnd_fresh (setParameter_fresh ⟨{}, rfl⟩ 1 5) (by decide)
+def exCheck (r : Option (St × Bytes × Bytes × Bool)) : Bool :=
+  match r with
+  | some (s, rem, _, _) => isFinished s && rem.isEmpty
+  | none => false
+example : exCheck (driveReq exOracle 60 2 [.call 100] exStart [1, 2, 3] [] false) = true := by decide
+example : exCheck (driveReq exOracle 60 2 [.call 1, .take 1, .call 1, .take 0, .call 1, .call 1, .take 0] exStart [1, 2, 3] [] false) = true := by decide
 
 end BV.Props.C05
